@@ -104,7 +104,8 @@ class C16(runner.Check):
 				"trailing_blanks": r.choice(["", "", " ", "\t", "  "]),
 				"final_newline": r.chance(0.7), "header": r.chance(0.8),
 				"nsites": r.chance(0.6), "indent": r.choice(["", "", " ", "  "]),
-				"blank_after_last": r.choice([None, None, 0])}
+				"blank_after_last": r.choice([None, None, 0]),
+				"blank_after_motif_line": r.choice([0, 1, 1, 2])}
 			f = S("faults")
 			io_plan = {"short_reads": f.chance(0.7), "max_read": f.choice([1, 3, 16, 64]),
 				"seed": f.subseed(), "buffer": f.choice([8192, 16, 64])}
@@ -226,6 +227,8 @@ class C16(runner.Check):
 				li += 1
 			mstart = starts[li]
 			w = len(m["pwm"][0])
+			while not lines[li + 1].startswith("letter-probability"):
+				li += 1
 			last = li + 1 + w
 			end_chars = starts[last] + len(lines[last])
 			offs.append((end_chars, min(len(text), end_chars + len(nl)), mstart))
@@ -501,6 +504,46 @@ class C16(runner.Check):
 			if msg:
 				out.violate(msg[0], "%s, kw=%r: %s" % (where, kw, msg[1]), key=msg[0])
 				break
+		# history: the file at an already used bigWig path is replaced by one with
+		# other content and read again in the same process
+		first_bw = [i for i, c in enumerate(case["combos"]) if c["sig"] == "bigwig"]
+		if case["signals"] is not None and first_bw and not out.violations and n_def > 0:
+			ci = first_bw[0]
+			combo = case["combos"][ci]
+			case2 = copy.deepcopy(case)
+			for t in case2["signals"]:
+				for name in t:
+					t[name] = [None if v is None else v + 1.0 for v in t[name]]
+			if case2["kw"]["min_counts"] is not None or case2["kw"]["max_counts"] is not None:
+				case2["kw"]["min_counts"] = case2["kw"]["max_counts"] = None
+			kw2 = case2["kw"]
+			cands2 = self._model(case2)
+			tag = "c16_%d_%d_%d" % (os.getpid(), case.get("seed", 0), ci)
+			loci, sequences, signals, in_signals, paths = self._materialise(case2, combo, tag)
+			try:
+				try:
+					res = self.tio.extract_loci(loci, sequences, signals=signals,
+						in_signals=in_signals, chroms=kw2["chroms"], in_window=kw2["in_window"],
+						out_window=kw2["out_window"], max_jitter=kw2["max_jitter"],
+						target_idx=kw2["target_idx"], n_loci=kw2["n_loci"])
+				finally:
+					for p in paths:
+						try:
+							os.remove(p)
+						except OSError:
+							pass
+				parts = [res] if isinstance(res, torch.Tensor) else list(res)
+				msg = self._align(cands2, parts[0].numpy(), parts[1].numpy(),
+					parts[-1].numpy() if in_signals is not None else None, kw2)
+				out.bump("probe.same_bigwig_path_other_content")
+				if msg:
+					out.violate("stale_file_content", "second extract_loci call in the same "
+						"process after the bigWig at the same path was replaced: %s" % msg[1],
+						key="stale")
+			except Exception as e:
+				if any(c["status"] == "definite" for c in cands2):
+					out.violate("raised", "second extract_loci call raised %s: %s" % (
+						type(e).__name__, str(e)[:200]), key={"exc": type(e).__name__})
 		out.nontrivial = n_def > 0 and ran > 0
 		out.digest = log.digest()
 		out.sample = {"leg": "loci", "seed": case.get("seed"), "chrom_lengths":
